@@ -12,7 +12,9 @@
      (b) the specification (Spec/ODESeries.v, the formal power-series solution, exact),
    tolerance 1e-9 * max(1, |coefficient vector|_inf).  jetexpand_residual is compared with the
    specification only (residual_from_ode lifts, implicit M (u^(k) - f) = 0 formulations, index-1
-   DAE stacks whose algebraic part determines one component).
+   DAE stacks whose algebraic part determines one component), once with the default Gauss-Newton
+   settings (stopping tolerance 1e-6: compared at 2e-5) and once with
+   lstsq_constrained_gauss_newton(tol=1e-13, maxiter=40) (compared at 1e-8).
    Expected on the unchanged tree: jetexpand_ode_via_jvp and jetexpand_ode_doubling_unroll agree
    with their models but NOT with the specification for time-dependent fields (they close over t):
    signatures C10.via_jvp.time-dependent / C10.doubling.time-dependent.
@@ -36,7 +38,8 @@ Local Open Scope Z_scope.
 """
 
 TOL = 1e-9
-RES_TOL = 1e-8
+RES_TOL = 1e-8           # jetexpand_residual with lstsq_constrained_gauss_newton(tol=1e-13, maxiter=40)
+RES_TOL_DEFAULT = 2e-5   # ... with the default Gauss-Newton (its stopping tolerance is 1e-6)
 ALG = {"padded_scan": 0, "unroll": 1, "via_jvp": 2, "doubling": 3}
 NZ = [k for k in range(-6, 7) if k != 0]
 
@@ -453,6 +456,12 @@ def main():
             mism_s = compare(rec["out"], exp_spec, tol)
             mism_m = compare(rec["out"], m, TOL) if m is not None else None
             if routine == "residual":
+                mism_d = compare(rec["out_default"], exp_spec, RES_TOL_DEFAULT)
+                if mism_d and not mism_s:
+                    ck.report(f"C10.residual.{c['residual']['form']}.default-solver", f"jetexpand_residual(num={num}) with the DEFAULT Gauss-Newton "
+                              f"settings (tol 1e-6, maxiter 10) on the {c['residual']['form']} formulation (order {k}, d={d}) misses the "
+                              f"coefficients by more than {RES_TOL_DEFAULT}: {mism_d} (iterations {rec.get('iters_default')}); the tightened solver is accurate",
+                              dict(replay, expected=[[str(x) for x in v] for v in exp_spec]))
                 if mism_s:
                     ck.report(f"C10.residual.{c['residual']['form']}", f"jetexpand_residual(num={num}) on the {c['residual']['form']} formulation "
                               f"(order {k}, d={d}): {mism_s}", dict(replay, expected=[[str(x) for x in v] for v in exp_spec]))
@@ -462,8 +471,8 @@ def main():
                           dict(replay, broken="correspondence Run/JetRun.v"), nofail=True)
                 continue
             if mism_s:
-                if routine in ("via_jvp", "doubling") and c["timedep"]:
-                    closes = "" if mism_m else " (the Coq model of the routine, which closes over t, reproduces the returned values)"
+                if routine in ("via_jvp", "doubling") and c["timedep"] and m is not None and not mism_m:
+                    closes = " (the Coq model of the routine, which closes over t, reproduces the returned values)"
                     ck.report(f"C10.{routine}.time-dependent",
                               f"jetexpand_ode_{'via_jvp' if routine == 'via_jvp' else 'doubling_unroll'} drops the explicit time derivative of a "
                               f"time-dependent vector field: {mism_s}; order {k}, d={d}, t0={float(c['t0'])}, "
@@ -473,12 +482,8 @@ def main():
                     ck.report(f"C10.{routine}.value", f"{routine}(num={num}) differs from the formal series solution: {mism_s}; order {k}, d={d}, "
                               f"time-dependent={c['timedep']}, tree={jc.get('tree')}",
                               dict(replay, expected=[[str(x) for x in v] for v in exp_spec]))
-            if mism_m and not (mism_s and routine in ("via_jvp", "doubling") and c["timedep"]):
-                if not mism_s and corr_bug is None:
-                    corr_bug = (replay, f"{routine}(num={num}): implementation agrees with the specification but not with the Coq model: {mism_m}")
-            if mism_m and mism_s and routine in ("via_jvp", "doubling") and c["timedep"] and corr_bug is None:
-                corr_bug = (replay, f"{routine}(num={num}) on a time-dependent field: implementation differs from the specification AND from "
-                                    f"the Coq model of the routine: {mism_m}")
+            if mism_m and not mism_s and corr_bug is None:
+                corr_bug = (replay, f"{routine}(num={num}): implementation agrees with the specification but not with the Coq model: {mism_m}")
             # the theorems say the scan / unroll models equal the specification: cross-check the evaluation
             if m is not None and routine in ("padded_scan", "unroll") and m != exp_spec and corr_bug is None:
                 corr_bug = (replay, f"model of {routine} differs from the specification (contradicts T10.2)")
@@ -504,7 +509,7 @@ def main():
               "via_jvp capped at num 5..8 (cost 2^num), doubling 0..3 doublings (1,3,7,15 coefficients; first order only); tree cases wrap the state "
               "in random dict/tuple/list pytrees with scalar or 1-d leaves (dict keys in random order, so that ravel order != natural order); "
               "residual cases: residual_from_ode(ode).jet_lift(num-1), M(u^(k)-f)=0 with triangular M, index-1 DAE stacks; reject cases: wrong "
-              f"number of initial values / doubling on second order.  tolerance {TOL} (residual routine {RES_TOL}) * max(1,|coefficient vector|). "
+              f"number of initial values / doubling on second order.  tolerance {TOL} (residual routine: {RES_TOL} tightened solver, {RES_TOL_DEFAULT} default solver) * max(1,|coefficient vector|). "
               "non-trivial = at least two derivatives beyond the initial data requested and the highest one non-zero; distinct by full input")
 
 
